@@ -562,18 +562,35 @@ bool vm_ffi_call_cop(VmState *vm, const NvmModule *module, uint32_t import_idx,
                            result, heap, error_msg, error_msg_size);
     }
 
-    /* Build request payload: u32 import_idx + u16 argc + serialized args */
+    /* Build request payload: u32 import_idx + u16 argc + serialized args.
+     * Small requests use the stack buffer; larger ones (long strings, arrays)
+     * get a heap buffer that grows up to COP_MAX_PAYLOAD. */
     uint8_t payload[8192];
+    uint8_t *req = payload;
+    uint32_t req_cap = (uint32_t)sizeof(payload);
     uint32_t pos = 0;
-    memcpy(payload + pos, &import_idx, 4);
+    memcpy(req + pos, &import_idx, 4);
     pos += 4;
     uint16_t argc = (uint16_t)arg_count;
-    memcpy(payload + pos, &argc, 2);
+    memcpy(req + pos, &argc, 2);
     pos += 2;
 
     for (int i = 0; i < arg_count && i < 16; i++) {
-        uint32_t n = cop_serialize_value(&args[i], payload + pos, sizeof(payload) - pos);
+        uint32_t n = cop_serialize_value(&args[i], req + pos, req_cap - pos);
+        while (n == 0 && req_cap < COP_MAX_PAYLOAD) {
+            /* Does not fit: grow the request buffer and try this argument again */
+            uint32_t new_cap = req_cap * 4;
+            if (new_cap > COP_MAX_PAYLOAD) new_cap = COP_MAX_PAYLOAD;
+            uint8_t *grown = malloc(new_cap);
+            if (!grown) break;
+            memcpy(grown, req, pos);
+            if (req != payload) free(req);
+            req = grown;
+            req_cap = new_cap;
+            n = cop_serialize_value(&args[i], req + pos, req_cap - pos);
+        }
         if (n == 0) {
+            if (req != payload) free(req);
             snprintf(error_msg, error_msg_size, "COP: failed to serialize arg %d", i);
             return false;
         }
@@ -581,7 +598,9 @@ bool vm_ffi_call_cop(VmState *vm, const NvmModule *module, uint32_t import_idx,
     }
 
     /* Send request */
-    if (!cop_send(vm->cop_in_fd, COP_MSG_FFI_REQ, payload, pos)) {
+    bool sent = cop_send(vm->cop_in_fd, COP_MSG_FFI_REQ, req, pos);
+    if (req != payload) free(req);
+    if (!sent) {
         /* Pipe broken — cop crashed during our call */
         vm_ffi_cop_stop(vm);
         snprintf(error_msg, error_msg_size,
